@@ -9,21 +9,27 @@
 (* order: messages first) TLC must find a counterexample; that run is the vacuity check.    *)
 EXTENDS Pipeline, TLC
 
-CONSTANTS MaxTerm, MaxLen, MaxCrash, SaveBeforeSend, ApplyAfterSave, Self, Peers
+CONSTANTS MaxTerm, MaxLen, MaxCrash, SaveBeforeSend, ApplyAfterSave, Self, Peers,
+          Solo,            \* Self is the only voting member (Peers are non-voting): an entry is committed when appended
+          HoldCommitting   \* node.canSendBeforeSave: a Replicate whose commit index covers unsaved entries waits for the save
 
 VARIABLES vol,    \* volatile raft state [term, vote, log]
           dur,    \* durable image
           upd,    \* update in the pipeline: [u (Pipeline update record), msgs]
           pc, told, crashes, covered,
-          applied  \* highest index handed to the user state machine
+          applied, \* highest index handed to the user state machine
+          ccov     \* every commit index told so far was covered by the durable log when the message left
 
-vars == <<vol, dur, upd, pc, told, crashes, covered, applied>>
+vars == <<vol, dur, upd, pc, told, crashes, covered, applied, ccov>>
 
 NoUpd == [u |-> [hasstate |-> FALSE, term |-> 0, vote |-> 0, commit |-> 0, n |-> 0, first |-> 0,
                  terms |-> <<>>, ssindex |-> 0, ssterm |-> 0], msgs |-> {}]
 
 Msg(type, term, to, reject, logindex) == [type |-> type, term |-> term, to |-> to, from |-> Self,
-                                          reject |-> reject, logindex |-> logindex]
+                                          reject |-> reject, logindex |-> logindex, commit |-> 0]
+\* raft.makeReplicateMessage: the leader's commit index travels with the entries; with one voting member
+\* raft.appendEntries has already committed what it just appended
+Repl(term, to, logindex, commit) == [Msg("Replicate", term, to, FALSE, logindex) EXCEPT !.commit = commit]
 
 \* the Update raft hands out after a step that turned old into new
 MkUpd(old, new, first, msgs) ==
@@ -35,6 +41,7 @@ MkUpd(old, new, first, msgs) ==
 
 Init == /\ vol = [term |-> 0, vote |-> 0, log |-> <<>>]
         /\ dur = DInit /\ upd = NoUpd /\ pc = "idle" /\ told = WInit /\ crashes = 0 /\ covered = TRUE /\ applied = 0
+        /\ ccov = TRUE
 
 Campaign ==
   /\ vol.term < MaxTerm
@@ -65,31 +72,38 @@ HandleHeartbeat ==
 LeaderPropose ==
   /\ vol.vote = Self /\ Len(vol.log) < MaxLen
   /\ LET new == [vol EXCEPT !.log = Append(@, vol.term)]
-     IN vol' = new /\ upd' = MkUpd(vol, new, Len(new.log), {Msg("Replicate", vol.term, p, FALSE, Len(vol.log)) : p \in Peers})
+     IN vol' = new /\ upd' = MkUpd(vol, new, Len(new.log),
+                                   {Repl(vol.term, p, Len(vol.log), IF Solo THEN Len(new.log) ELSE 0) : p \in Peers})
 
 Step == /\ pc = "idle"
         /\ (Campaign \/ HandleVote \/ HandleAppend \/ HandleHeartbeat \/ LeaderPropose)
-        /\ pc' = "stepped" /\ UNCHANGED <<dur, told, crashes, covered, applied>>
+        /\ pc' = "stepped" /\ UNCHANGED <<dur, told, crashes, covered, applied, ccov>>
 
 Free(ms) == {m \in ms : ~Implies(m)}
 RECURSIVE ToldAll(_, _)
 ToldAll(w, ms) == IF ms = {} THEN w ELSE LET m == CHOOSE m \in ms : TRUE IN ToldAll(Told(w, Self, m), ms \ {m})
 
-SendFree == /\ pc = "stepped" /\ pc' = "free_sent" /\ UNCHANGED <<vol, dur, upd, told, crashes, covered, applied>>
+\* node.sendReplicateMessages: the free-order messages that may leave before the save
+Held(m) == HoldCommitting /\ m.type = "Replicate" /\ upd.u.n > 0 /\ m.commit >= upd.u.first
+Early(ms) == {m \in Free(ms) : ~Held(m)}
+SendFree == /\ pc = "stepped" /\ pc' = "free_sent"
+            /\ ccov' = (ccov /\ \A m \in Early(upd.msgs) : CommitCovered(dur, m))
+            /\ UNCHANGED <<vol, dur, upd, told, crashes, covered, applied>>
 
 Save == /\ pc = (IF SaveBeforeSend THEN "free_sent" ELSE "others_sent")
         /\ dur' = ApplyUpdate(dur, upd.u)
         /\ told' = Withdraw(told, upd.u)
         /\ pc' = (IF SaveBeforeSend THEN "saved" ELSE "done")
-        /\ UNCHANGED <<vol, upd, crashes, covered, applied>>
+        /\ UNCHANGED <<vol, upd, crashes, covered, applied, ccov>>
 
 SendOthers == /\ pc = (IF SaveBeforeSend THEN "saved" ELSE "free_sent")
               /\ covered' = (covered /\ \A m \in upd.msgs : MsgCovered(dur, Self, m))
+              /\ ccov' = (ccov /\ \A m \in upd.msgs \ Early(upd.msgs) : CommitCovered(dur, m))
               /\ told' = ToldAll(told, upd.msgs)
               /\ pc' = (IF SaveBeforeSend THEN "done" ELSE "others_sent")
               /\ UNCHANGED <<vol, dur, upd, crashes, applied>>
 
-Commit == /\ pc = "done" /\ pc' = "idle" /\ upd' = NoUpd /\ UNCHANGED <<vol, dur, told, crashes, covered, applied>>
+Commit == /\ pc = "done" /\ pc' = "idle" /\ upd' = NoUpd /\ UNCHANGED <<vol, dur, told, crashes, covered, applied, ccov>>
 
 \* power loss: the volatile state is rebuilt from the durable image
 Crash == /\ crashes < MaxCrash
@@ -97,19 +111,20 @@ Crash == /\ crashes < MaxCrash
          /\ vol' = [term |-> dur.term, vote |-> dur.vote, log |-> dur.log]
          /\ upd' = NoUpd /\ pc' = "idle"
          /\ applied' = 0          \* the state machine is rebuilt (from a snapshot / by replaying the durable log)
-         /\ UNCHANGED <<dur, told, covered>>
+         /\ UNCHANGED <<dur, told, covered, ccov>>
 
 \* the committed entries of the update are handed to the apply worker: after SaveRaftState
 \* (applySnapshotAndUpdate(.., false)); with ApplyAfterSave = FALSE (mutated order) already before it.
 \* The environment decides how much of the volatile log is committed.
 Apply == /\ pc \in (IF ApplyAfterSave THEN {"saved", "done"} ELSE {"stepped", "free_sent", "saved", "done"})
          /\ \E i \in (applied + 1)..Len(vol.log) : applied' = i
-         /\ UNCHANGED <<vol, dur, upd, pc, told, crashes, covered>>
+         /\ UNCHANGED <<vol, dur, upd, pc, told, crashes, covered, ccov>>
 
 Next == Step \/ SendFree \/ Save \/ SendOthers \/ Commit \/ Crash \/ Apply
 Spec == Init /\ [][Next]_vars
 
 PersistBeforeSend == covered
+CommitToldIsDurable == ccov
 ApplyNotAheadOfSave == applied = 0 \/ ApplyCovered(dur, applied)
 RestartOK == RestartMonotone(dur, dur, told)      \* what a restart at this instant would find
 =============================================================================
